@@ -107,10 +107,10 @@ func init() {
 		Explanation: "symbolic execution of csproto's dispatch code (Marshal, Unmarshal, Size, MsgType, deduceMsgType, Clone, Equal, Reset, MarshalText, GrpcCodec) over a family of candidate values whose real method sets realise every tier combination the code distinguishes (symbolic choice, type assertions decided by go/types); the runtimes' own functions are logged contract stubs, tier order is observed through counters in the candidates; every implicit panic (failed type assertion, nil dereference) is an obligation; counterexamples are replayed natively against the real runtimes",
 		TrustedBase: []string{"the three protobuf runtimes' own Marshal/Size/Unmarshal/Clone/Equal/Reset/text functions behave as documented (contract stubs)", "gogo.MessageName returns a non-empty name exactly for gogo-registered message types", "sync.Map is safe for concurrent use; classification depends on the dynamic type only, so concurrent first uses store the same value"}})
 	regProp(&PropSpec{ID: "C12", Level: "other", Groups: []string{"csproto"}, QuickTimeout: 600, ThorTimeout: 3000, Witnesses: 200,
-		Explanation: "symbolic execution of all of extensions.go over message candidates (real v2 extendable message, real gogo extendable message, a gogo message whose extensions declare defaults, legacy v1-style message, non-message pointer, nil) x descriptor candidates (real v2 ExtensionType = golang v1 ExtensionDesc, real *gogo.ExtensionDesc, a gogo descriptor with a declared default that extends another message, other value, nil), symbolic choice; the runtimes' extension APIs are logged contract stubs. Obligations: a matching pair invokes exactly the owning runtime's function, a mismatching pair yields false / an error / the documented panic with NO runtime call (hence no modification), unsupported values never panic (ClearExtension excepted, as documented). On every native replay the coherence laws (Set=>Has,Get; Clear/ClearAll=>!Has and gone from the marshaled bytes; Range visits exactly the set ones; declared number) are asserted against the real runtimes on real messages, and GetExtension is compared with the owning runtime's own answer (value, error, error text).",
+		Explanation: "symbolic execution of all of extensions.go over message candidates (real v2 extendable message, real gogo extendable message, a gogo message whose extensions declare defaults, legacy v1-style message, non-message pointer, nil) x descriptor candidates (real v2 ExtensionType = golang v1 ExtensionDesc, real *gogo.ExtensionDesc, a gogo descriptor with a declared default that extends another message, other value, nil), symbolic choice; the runtimes' extension APIs are logged contract stubs. Obligations: a matching pair invokes exactly the owning runtime's function, a mismatching pair yields false / an error / the documented panic with NO runtime call (hence no modification), unsupported values never panic (ClearExtension excepted, as documented). On every native replay the coherence laws (Set=>Has,Get; Clear/ClearAll=>!Has and gone from the marshaled bytes; Range visits exactly the set ones - for all 16 subsets of four scalar extensions of a v2 message the visited field set and call count equal the runtime's own Range, and a callback failing at its k-th call ends the iteration there with that error (native differential, not a solver verdict: the runtime's Range is a stub in the symbolic run); declared number) are asserted against the real runtimes on real messages, and GetExtension is compared with the owning runtime's own answer (value, error, error text).",
 		TrustedBase: []string{"each runtime's extension store obeys its documented contract (symbolic runs use logged stubs; the real runtimes are exercised only on replay)", "MsgType classification (C11)"}})
 	regProp(&PropSpec{ID: "C18", Level: "other", Groups: []string{"csproto"}, QuickTimeout: 600, ThorTimeout: 3000, Witnesses: 200,
-		Explanation: "symbolic execution of all of json.go over message candidates (nil interface, typed nil pointer, real v2 message, real gogo message, legacy v1-style message, a type with its own MarshalJSON/UnmarshalJSON, a typed nil pointer of such a type, a non-message pointer) with the five options as symbolic values (each possibly left at its default); the JSON codecs of the three runtimes are logged contract stubs whose receiver structs are read back: the codec is invoked with exactly the options given for all 2^5 valuations at once, nil => (nil,nil) resp. an error, a json.Marshaler/Unmarshaler is called directly, codec errors are propagated, unsupported values are errors. On every native replay the real codecs run: output is valid JSON, round-trips through the adapter and the owning runtime's decoder to an equal message, and every option has its visible effect.",
+		Explanation: "symbolic execution of all of json.go over message candidates (nil interface, typed nil pointer, real v2 message, real gogo message, legacy v1-style message, a type with its own MarshalJSON/UnmarshalJSON, a typed nil pointer of such a type, a non-message pointer) with the five options as symbolic values (each possibly left at its default, and, under a further symbolic Boolean, each preceded in the list by its opposite value so that 'the later occurrence counts' and 'JSONIndent(\"\") disables indentation' are part of the obligation); the JSON codecs of the three runtimes are logged contract stubs whose receiver structs are read back: the codec is invoked with exactly the options given for all 2^5 valuations at once, nil => (nil,nil) resp. an error, a json.Marshaler/Unmarshaler is called directly, codec errors are propagated, unsupported values are errors. On every native replay the real codecs run: output is valid JSON, round-trips through the adapter and the owning runtime's decoder to an equal message, and every option has its visible effect.",
 		TrustedBase: []string{"protojson / jsonpb (golang and gogo) implement their documented options (symbolic runs use logged stubs; the real codecs are exercised on replay)"}})
 	regProp(&PropSpec{ID: "C20", Level: "model_checking", Groups: []string{"prototest", "protodump"}, QuickTimeout: 900, ThorTimeout: 3000})
 	regProp(&PropSpec{ID: "C19", Level: "model_checking", Groups: []string{"csproto"}, QuickTimeout: 600, ThorTimeout: 3000})
